@@ -27,7 +27,7 @@ func init() {
 				"the answer flag, each written to its own byte range (no overlapping shifts). R8: every rule-list engine constructor " +
 				"receives the empty cache or a result cache created for it alone, once per engine.",
 			NotCovered: "equality of verdicts with and without caches over all list contents; client-specific modifiers ($client), which the property excludes.",
-			Rules: map[string]string{"C12-R17": "the clone functions of dnsmsg put no object of the source message into the clone (every option, record and slice is taken from a pool or copied)", "C12-R16": "hash-prefix storage and filter publish new state only after a successful load (shared with C13-R3)", "C12-R15": "an answer served from a result cache has the response code of the answer that was stored (SetReply resets it)", "C12-RC": "class rules (error chains, shadowed results, character classes, crossed arguments, pool constructors, array pools, loop completeness, loop-carried buffers, replacing setters, complete clones, Grow arithmetic, pooled-buffer escape, sorted searches, fresh decode targets, per-iteration objects, whole-message copies, codec guards) over the packages this property rests on", "C12-R14": "serviceblock.Filter.Refresh computes the new service map from the new index alone (never reads the map it replaces)", "C12-R13": "slices of a (possibly cached, shared) urlfilter.DNSResult are only read or copied, never stored or appended to", "C12-R1": "swap+clear in one write-locked section", "C12-R2": "query path read-holds the lock",
+			Rules: map[string]string{"C12-R19": "hashprefix.FilterRequest looks its verdict up and stores it under one cache key, computed from the request's own host, type and class", "C12-R17": "the clone functions of dnsmsg put no object of the source message into the clone (every option, record and slice is taken from a pool or copied)", "C12-R16": "hash-prefix storage and filter publish new state only after a successful load (shared with C13-R3)", "C12-R15": "an answer served from a result cache has the response code of the answer that was stored (SetReply resets it)", "C12-RC": "class rules (error chains, shadowed results, character classes, crossed arguments, pool constructors, array pools, loop completeness, loop-carried buffers, replacing setters, complete clones, Grow arithmetic, pooled-buffer escape, sorted searches, fresh decode targets, per-iteration objects, whole-message copies, codec guards) over the packages this property rests on", "C12-R14": "serviceblock.Filter.Refresh computes the new service map from the new index alone (never reads the map it replaces)", "C12-R13": "slices of a (possibly cached, shared) urlfilter.DNSResult are only read or copied, never stored or appended to", "C12-R1": "swap+clear in one write-locked section", "C12-R2": "query path read-holds the lock",
 				"C12-R3": "generalised refresh discipline (F9)", "C12-R4": "no per-request data in shared caches (F8)", "C12-R5": "custom engine staleness gate", "C12-R9": "caches store clones and hand out clones (shared with C07-R4)",
 				"C12-R10": "custom rules received from the backend are stamped with the time of reception (time.Now), the only stamp that is newer than every cached engine",
 				"C12-R6":  "collision checks", "C12-R7": "cache key dependence and injective packing", "C12-R8": "one result cache per engine"},
@@ -36,6 +36,9 @@ func init() {
 
 func runC12(c *an.Ctx) {
 	classSweep(c, "C12")
+	// ---- R19: the hash-prefix filter reads and fills its cache under the request's own key only
+	c.Floor("C12-R19", 1)
+	c12OneKeyPerRequest(c, "C12-R19")
 	// ---- R17: a response cloned out of a cache shares no option object with the cached message
 	if n := sharedCloneOwnsItsParts(c, "C12-R17", func(k string) bool {
 		return strings.HasPrefix(k, "dnsmsg.(*") && (strings.Contains(k, "Cloner).clone") || strings.Contains(k, "Cloner).Clone"))
@@ -844,4 +847,54 @@ func c12NoAliasCached(c *an.Ctx, rule string) {
 	if n < 3 {
 		c.Und(rule, "reads of urlfilter.DNSResult slices", token.NoPos, "only %d reads found (anchor: rulelist.URLFilterResult.Add)", n)
 	}
+}
+
+// c12OneKeyPerRequest: a request reads and fills the verdict cache under one
+// key, the key of its own question.  The cached value is built for this request
+// (owner names of the answer records, the SOA), so storing it under the key of
+// another name (the matched parent domain, say) makes a later query for that
+// name receive records owned by this one.  In FilterRequest of the hash-prefix
+// filter every cache key handed to itemFromCache, setInCache or the cache's Set
+// is the one value computed from the request.
+func c12OneKeyPerRequest(c *an.Ctx, rule string) {
+	const k = "filter/hashprefix.(*Filter).FilterRequest"
+	fn := c.Fn(k)
+	key := k + " uses one cache key, the request's own"
+	if fn == nil {
+		c.Und(rule, key, token.NoPos, "anchor not found")
+		return
+	}
+	c.Analysed(k)
+	keys := map[ssa.Value]bool{}
+	n := 0
+	for _, call := range an.Calls(fn) {
+		callee := an.StaticCallee(call)
+		for i, a := range call.Common().Args {
+			if !strings.HasSuffix(an.TypeName(a.Type()), "filter/internal.CacheKey") {
+				continue
+			}
+			if callee != nil && strings.HasSuffix(an.FnKey(callee), "internal.NewCacheKey") {
+				continue
+			}
+			_ = i
+			n++
+			keys[a] = true
+		}
+	}
+	bad := ""
+	if len(keys) > 1 {
+		bad = fmt.Sprintf("%d different key values are used", len(keys))
+	}
+	for kv := range keys {
+		call, ok := kv.(*ssa.Call)
+		if !ok || !strings.HasSuffix(an.CalleeName(call), "internal.NewCacheKey") {
+			bad = "a key does not come from NewCacheKey"
+			continue
+		}
+		if ap, ok := an.AccessPath(call.Call.Args[0]); !ok || !strings.HasSuffix(ap, ".Host") {
+			bad = "the key is not computed from the request's host"
+		}
+	}
+	c.Check(n >= 2 && bad == "", rule, key, fn.Pos(), fmt.Sprintf("%d uses of a cache key, all of the one value computed from the request's host, type and class", n),
+		bad+": a value built for this request is stored under another name's key, and a later query for that name is answered with records owned by this one")
 }
